@@ -59,6 +59,10 @@ def entry_state(self):
         st.env[n] = self.declare_param(n, t, st)
     for n, t in self.c.ghost.items():
         st.ghost[n] = self.declare_param(n, t, st)
+    if self.lenient:
+        for a in self.fn.args.posonlyargs + self.fn.args.args + self.fn.args.kwonlyargs:
+            if a.arg not in st.env:
+                st.env[a.arg] = Unknown(f"undeclared parameter {a.arg}")
     for extra in (self.fn.args.vararg, self.fn.args.kwarg):
         if extra is not None and extra.arg not in st.env:
             st.env[extra.arg] = Unknown("*args/**kwargs")
@@ -278,6 +282,8 @@ def assign_target(self, target, v, st):
 
 def concretise(self, v, t, st):
     """Turn literal displays / views into a value of the expected type t."""
+    if isinstance(t, Opaque) and t.nm == "Any":
+        return self.fresh_of_type(t, st, "any")
     if isinstance(v, tuple) and v and v[0] == "listlit":
         if isinstance(t, List):
             lst = self.alloc(st, t)
@@ -450,6 +456,8 @@ def st_AnnAssign(self, s, st):
     for v, s2 in outs:
         if t is not None:
             v = self.concretise(v, t, s2)
+        elif self.lenient and isinstance(v, tuple) and v and v[0] in ("listlit", "listcomp", "setlit"):
+            v = Unknown("container of untracked element type")
         if isinstance(s.target, ast.Name):
             s2.env[s.target.id] = v
         else:
@@ -543,7 +551,12 @@ def st_Assert(self, s, st):
     mode = getattr(self.cur_contract, "asserts", "prove") if self.cur_contract else "prove"
     for v, s2 in self.ev(s.test, st):
         z = self.truth(v, s2)
-        if mode == "assume":
+        narrowing = isinstance(s.test, ast.Call) and isinstance(s.test.func, ast.Name) and s.test.func.id == "isinstance"
+        if narrowing and self.lenient:
+            self.assume_log("lenient: `assert isinstance(...)` on untracked values is a type-narrowing assert (assumed)")
+            s2.assume(z)
+            yield Outcome("normal", s2)
+        elif mode == "assume":
             self.assume_log(f"code assert assumed (data-dependent, outside this contract's claim): {ast.unparse(s.test)[:70]}")
             s2.assume(z)
             yield Outcome("normal", s2)
